@@ -138,7 +138,7 @@ func cmdWorker(args []string) int {
 	}
 	eng.Findings = loadFindings(pd.ID)
 	if *solver == pd.solver() {
-		eng.FallbackKinds = pd.Fallbacks
+		eng.FallbackKinds = pd.fallbacks()
 	}
 	if err := eng.Init(); err != nil {
 		emit(workerOut{Fatal: err.Error()})
